@@ -122,6 +122,17 @@ where
                 LTermInner::Val(LValue::Number(w)),
             ) => {
                 /* u and w grounded */
+                if *u == 0 {
+                    /* 0 * v = w: no solution unless w is 0, and then every v is one */
+                    return if *w == 0 {
+                        Ok(state.with_constraint(self))
+                    } else {
+                        Err(())
+                    };
+                }
+                if w % u != 0 {
+                    return Err(());
+                }
                 state
                     .smap_to_mut()
                     .extend(vwalk.clone(), LTerm::from(w / u));
@@ -133,12 +144,24 @@ where
                 LTermInner::Val(LValue::Number(w)),
             ) => {
                 /* v and w grounded */
+                if *v == 0 {
+                    /* u * 0 = w: no solution unless w is 0, and then every u is one */
+                    return if *w == 0 {
+                        Ok(state.with_constraint(self))
+                    } else {
+                        Err(())
+                    };
+                }
+                if w % v != 0 {
+                    return Err(());
+                }
                 state
                     .smap_to_mut()
                     .extend(uwalk.clone(), LTerm::from(w / v));
                 state.run_constraints()
             }
-            (LTermInner::Var(_, _), LTermInner::Var(_, _), LTermInner::Val(LValue::Number(_)))
+            (LTermInner::Var(_, _), LTermInner::Var(_, _), LTermInner::Var(_, _))
+            | (LTermInner::Var(_, _), LTermInner::Var(_, _), LTermInner::Val(LValue::Number(_)))
             | (LTermInner::Var(_, _), LTermInner::Val(LValue::Number(_)), LTermInner::Var(_, _))
             | (LTermInner::Val(LValue::Number(_)), LTermInner::Var(_, _), LTermInner::Var(_, _)) => {
                 /* Not enough terms grounded to verify constraint. */
